@@ -171,28 +171,28 @@ fn c05f_roa_delta_have_rem() { roa_delta::<true, true, 0, false>(); }
 
 // vk: tier=thorough; timeout=2400; flags=--no-assertion-reach-checks --no-memory-safety-checks; bound=1 existing authorisation, delta = 1 addition, no comments (same payload = duplicate); every payload an arbitrary IPv4 prefix with any max length and origin, held = one arbitrary IPv4 prefix (RoaPayload::held_by replaced by its specification, shown equivalent by c05b_held_by_v4); model map (harness/kani_map.rs)
 #[kani::proof]
-#[kani::unwind(5)]
+#[kani::unwind(3)]
 #[kani::stub(rpki::repository::x509::Time::now, stub_now)]
 #[kani::stub(crate::api::roa::RoaPayload::held_by, stub_held_by)]
 fn x05f_roa_delta_have_add() { roa_delta::<true, false, 1, false>(); }
 
 // vk: tier=thorough; timeout=2400; flags=--no-assertion-reach-checks --no-memory-safety-checks; bound=1 existing authorisation with a one-letter comment, delta = 1 addition with a one-letter comment (same payload: same letter = duplicate, other letter = comment update); every payload an arbitrary IPv4 prefix with any max length and origin, held = one arbitrary IPv4 prefix (RoaPayload::held_by replaced by its specification, shown equivalent by c05b_held_by_v4); model map (harness/kani_map.rs)
 #[kani::proof]
-#[kani::unwind(5)]
+#[kani::unwind(3)]
 #[kani::stub(rpki::repository::x509::Time::now, stub_now)]
 #[kani::stub(crate::api::roa::RoaPayload::held_by, stub_held_by)]
 fn x05f_roa_delta_have_add_comments() { roa_delta::<true, false, 1, true>(); }
 
 // vk: tier=thorough; timeout=2400; flags=--no-assertion-reach-checks --no-memory-safety-checks; bound=1 existing authorisation, delta = 1 removal + 1 addition (incl. remove-then-re-add); every payload an arbitrary IPv4 prefix with any max length and origin, held = one arbitrary IPv4 prefix (RoaPayload::held_by replaced by its specification, shown equivalent by c05b_held_by_v4); model map (harness/kani_map.rs)
 #[kani::proof]
-#[kani::unwind(5)]
+#[kani::unwind(3)]
 #[kani::stub(rpki::repository::x509::Time::now, stub_now)]
 #[kani::stub(crate::api::roa::RoaPayload::held_by, stub_held_by)]
 fn x05f_roa_delta_have_rem_add() { roa_delta::<true, true, 1, false>(); }
 
 // vk: tier=thorough; timeout=2400; flags=--no-assertion-reach-checks --no-memory-safety-checks; bound=empty configuration, delta = 2 additions (the second may repeat the first); every payload an arbitrary IPv4 prefix with any max length and origin, held = one arbitrary IPv4 prefix (RoaPayload::held_by replaced by its specification, shown equivalent by c05b_held_by_v4); model map (harness/kani_map.rs)
 #[kani::proof]
-#[kani::unwind(5)]
+#[kani::unwind(3)]
 #[kani::stub(rpki::repository::x509::Time::now, stub_now)]
 #[kani::stub(crate::api::roa::RoaPayload::held_by, stub_held_by)]
 fn x05f_roa_delta_two_adds() { roa_delta::<false, false, 2, false>(); }
